@@ -93,7 +93,19 @@ CHECKS = {
         'note': 'Trusted: pmc/ref/roles.py, pmc/ref/interp.py weak connectivity, the in-process harness pmc/engine/cli.py (validated against a real sub-process on a subset).',
         'design_ref': 'DESIGN.md section 4 C16',
     },
+    'C11': {
+        'technique': 'bounded-exhaustive enumeration of well-formed graphs x models; reify/dereify laws and inverse checked on the real transforms, preconditions decided by a reference',
+        'text': 'For the decoding (and marker-less twin) of every well-formed tree within the bounds over reifiable AMR, MINI and custom-table roles - attributes, inverted edges, re-entrancies, aligned roles and targets, pre-existing variables named _ and _2 (three renamings) - the real reify_edges is checked against the table (no reifiable role left, exactly one fresh node per reifiable triple, replaced in place by the table\'s three triples, top and other triples kept), and the real dereify_edges must restore triples, top, both alignment maps and, for decoded graphs, the identical encoded text. A second family with reified-looking nodes checks that nodes with another relation, the top, or nodes referenced elsewhere are never collapsed.',
+        'note': 'Trusted: the table-driven reference in pmc/props/c11.py, pmc/ref/interp.py; ambiguous table entries (:subset/:superset) and inputs with collapsible nodes are outside the statement.',
+        'design_ref': 'DESIGN.md section 4 C11',
+    },
+    'C12': {
+        'technique': 'explicit-state search (BFS with state hashing) over transformation programs on the real transforms',
+        'text': 'From five initial variants (decoded, marker-less, one marker list deleted, explicit other top, attribute appended) of every well-formed tree of several families, all programs up to length 2-4 over reify_edges, dereify_edges, reify_attributes and indicate_branches (at most once) are executed on the real code under AMR, MINI and DEFAULT; after every step: no exception, argument untouched, same top, every source has a node, the graph is connected, it encodes and decodes to itself, and the specific laws of reify_attributes (no attribute left, contraction restores the triples) and indicate_branches (one top-role triple per nested node, removal restores the triples) hold.',
+        'note': 'Trusted: pmc/ref/interp.py content and connectivity; the nested-node count clause is asserted on faithfully marked (decoded) graphs only; small-scope hypothesis on graph size and program length.',
+        'design_ref': 'DESIGN.md section 4 C12',
+    },
 }
 
 NOT_APPLICABLE = {k: _PENDING for k in
-                  ['C09', 'C11', 'C12', 'C17', 'C20']}
+                  ['C09', 'C17', 'C20']}
